@@ -269,7 +269,7 @@ func Check[C any](t *testing.T, baseChecks int, gen func(*rapid.T) C, run func(C
 				break
 			}
 		}
-		if executed >= 40 && inconclusive*2 > executed {
+		if executed >= 16 && inconclusive*2 > executed {
 			bail = true
 		}
 	})
